@@ -218,6 +218,15 @@ def nullable_body_case(rng):
             prods.append([cur, []])
             if rng.random() < 0.5:
                 prods.append([cur, [["T", nt - 1]]])
+    if rng.random() < 0.35:
+        # a component is also reached through a nullable unit production of another variable used later in S:
+        # S -> A t U t' ; U -> B_i   (FIRST of one symbol serves two productions)
+        u = nv
+        nv += 1
+        prods.append([u, [["V", 2 + rng.randrange(k)]]])
+        prods[0] = [0, prods[0][1] + [["V", u], ["T", nt - 1]]]
+        if rng.random() < 0.4:
+            prods[0] = [0, [["V", 2 + rng.randrange(k)]] + prods[0][1][1:]]      # ... and S starts with a component
     if rng.random() < 0.3:
         # left recursion behind / through nullable variables: A -> A t,  or a component that recurses on itself
         v = rng.choice([1] + [2 + i for i in range(k)])
